@@ -96,6 +96,8 @@ def sk_items(F, b, opaque):
             add("store" + n.get("op", "="), W.T.term(n["r"]), W)
         elif k == "AssignOp" and n["l"].get("k") == "Path":
             add("upd:%s:%s" % (n["l"]["name"], n["op"]), W.T.term(n["r"]), W)
+        elif k == "Assign" and n["l"].get("k") == "Path" and n["l"].get("res") == "local":
+            add("set:%s" % n["l"]["name"], W.T.term(n["r"]), W)
         elif k == "MethodCall" and n["name"] in ("push", "resize", "saturating_sub", "div_ceil", "min", "max"):
             items.add(("call:" + n["name"], tuple(repr(normalize(canon(W.expand(W.T.term(a))))) for a in n["args"])))
     W = Walker(F, b, on_node=on_node)
